@@ -39,10 +39,12 @@ impl EventGen for ReuseElement {
             .inspect_err(|_| {
                 context.pop_element();
             })?;
-        instance_element.expand_compound_size();
+        // expressions first, as everywhere else: a compound value such as
+        // wh="{{$s * 2}} {{$s - 1}}" must not be split inside an expression
         instance_element.eval_attributes(context).inspect_err(|_| {
             context.pop_element();
         })?;
+        instance_element.expand_compound_size();
         let instance_size = instance_element.size(context).inspect_err(|_| {
             context.pop_element();
         })?;
